@@ -3,6 +3,9 @@ package proto
 import (
 	"encoding/binary"
 	"fmt"
+	"net/netip"
+
+	"verif/refcodec"
 )
 
 // Noise kinds: the per-field mutation lattice of DESIGN.md C09. NoiseCount(kind, len) tells how many
@@ -39,6 +42,8 @@ func NoiseCount(kind string, b []byte) int {
 		return 4
 	case "ts-opt-len":
 		return 8
+	case "tcp-flags":
+		return 255 // every flag byte except SYN|ACK itself
 	}
 	return 0
 }
@@ -113,6 +118,35 @@ func NoiseApply(kind string, b []byte, arg int) []byte {
 		}
 		o[lo] = byte(arg)
 		o[lo+1] = 0
+	case "tcp-flags":
+		if proto != 6 || len(o) < lo+14 {
+			return nil
+		}
+		f := byte(arg)
+		if f >= 0x12 {
+			f++ // skip SYN|ACK
+		}
+		o[lo+13] = f
+		// only a SYN carries the handshake options: an ordinary segment of the flow has a bare 20-byte header
+		o = o[:lo+20]
+		o[lo+12] = 5 << 4
+		if v6 {
+			binary.BigEndian.PutUint16(o[4:], 20)
+		} else {
+			binary.BigEndian.PutUint16(o[2:], uint16(len(o)))
+			refcodec.FixIPv4Checksum(o)
+		}
+		// keep the segment well-formed: recompute the TCP checksum
+		o[lo+16], o[lo+17] = 0, 0
+		var src, dst netip.Addr
+		if v6 {
+			src, _ = netip.AddrFromSlice(o[8:24])
+			dst, _ = netip.AddrFromSlice(o[24:40])
+		} else {
+			src, _ = netip.AddrFromSlice(o[12:16])
+			dst, _ = netip.AddrFromSlice(o[16:20])
+		}
+		binary.BigEndian.PutUint16(o[lo+16:], refcodec.L4Checksum(src, dst, 6, o[lo:]))
 	case "l4-offset":
 		if proto != 6 || len(o) < lo+13 {
 			return nil
